@@ -3,6 +3,7 @@
 from __future__ import annotations
 
 import asyncio
+import contextvars
 import json
 import typing
 
@@ -13,6 +14,10 @@ from ..boot import Runaway, VClock
 from ..runner import CaseResult, Prop
 
 CYCLE_MSG = "Circular resource dependency detected"
+FAULT_TAG = "c22-fault:"
+
+# which run (index) the current task tree belongs to: set by the harness right before wf.run(), inherited by every task of the run
+RUN_K: contextvars.ContextVar = contextvars.ContextVar("c22_run", default=None)
 
 
 class Prod:
@@ -164,6 +169,7 @@ class _Log:
         self._tid: dict = {}
         self._open: dict = {}  # tid -> [depth, phase]
         self.serial = 0
+        self.ncall: dict = {}
         self.name_to_fi: dict = {}
 
     def tid(self):
@@ -178,7 +184,7 @@ class _Log:
         tid = self.tid()
         cur = self._open.get(tid)
         if cur is None:
-            ph = {"tid": tid, "s_req": self.rec.nseq(), "t_req": VClock.t, "s_exit": None, "t_exit": None, "top": []}
+            ph = {"tid": tid, "s_req": self.rec.nseq(), "t_req": VClock.t, "s_exit": None, "t_exit": None, "top": [], "run": RUN_K.get()}
             self.phases.append(ph)
             cur = self._open[tid] = [0, ph]
         cur[0] += 1
@@ -232,7 +238,9 @@ class C22(Prop):
         "or 1-3 s), declared either through shared descriptors or a new Resource(...) at every use site; in half of the cases the cache flag is chosen per use site (step "
         "parameter or dependency edge), so one factory function is declared both Resource(f) and Resource(f, cache=False) in different steps; a start step and "
         "1-3 worker steps (num_workers 1..3) request generated overlapping subsets; every run fans 1-4 events out to all worker steps; "
-        "1-3 runs of the same instance start at generated instants or one after the other. Factories, the manager entry points "
+        "1-3 runs of the same instance start at generated instants or one after the other; in a third of the cases the k-th call (k 1-4) of one or two "
+        "factories raises (a transient fault: that step invocation and its run fail, other workers of the run are cancelled mid-resolution, later runs go on, "
+        "and one more run follows after everything else has ended). Factories, the manager entry points "
         "(get / resolution_scope, through a delegating ResourceManager subclass passed as resource_manager=) and step bodies log what "
         "was built and injected. Oracle: (a) all CACHED uses of a factory (direct or as a dependency, every step, every run) receive one identical object, made by a call "
         "that served a cached use; a factory that is only ever declared cached runs to completion at most once per instance (a call cancelled together with a failing "
@@ -240,15 +248,18 @@ class C22(Prop):
         "made in that step invocation's own worker task: never an object another invocation received, never the object of the cached declaration (and the cached "
         "declaration never receives a non-cached product, i.e. the cached slot is not overwritten), one object inside one invocation (diamond), never "
         "two calls inside one resolution, and no call whose product nobody received; (c) products are "
-        "wired to the declared dependencies; (d) if a step that runs reaches a dependency cycle every run fails with the documented "
-        "ValueError('Circular resource dependency detected ...'); otherwise no run ever fails with it, and every run ends with its result "
-        "before the virtual horizon. Non-trivial = the injection phases of two step invocations interleaved (one was requested while "
+        "wired to the declared dependencies; a failed or cancelled resolution leaves nothing behind except completed cached objects: nothing it made is ever "
+        "handed to a non-cached use of a later invocation (attribute after_failed_resolution), and a cached factory whose call raised is simply called again; "
+        "(d) a run in which a factory raised fails with exactly that exception; otherwise, if a step that runs reaches a dependency cycle the run fails with the documented "
+        "ValueError('Circular resource dependency detected ...'); otherwise no run ever fails with it, and every run ends with its result and the full number "
+        "of step invocations before the virtual horizon. Non-trivial = the injection phases of two step invocations interleaved (one was requested while "
         "the other was open) and both needed a common resource that had to be built then (non-cached, or cached and not yet available)."
     )
     assumptions = [
         "observation goes through a ResourceManager subclass given to Workflow(resource_manager=...) that only logs and delegates get() / resolution_scope(); factories and step bodies are harness code",
         "one worker task per step invocation (control loop): factory calls and the step body of one invocation are attributed to each other by asyncio.current_task()",
         "no retry policies: a failed injection fails the run with the factory/manager exception itself",
+        "factory calls and injection phases are attributed to their run by a harness context variable set right before wf.run() (tasks inherit their creator's context); the check stops with a harness error if that disagrees with the event payload seen in a step body",
         "a factory may be declared cached in one step and non-cached in another (as in the package's test_non_caching_behavior), but inside ONE step's dependency closure each factory is used under one flag only: the property does not define what mixing both declarations inside a single resolution means; out-of-domain flips are dropped deterministically (_flags)",
         "schedules are generated as virtual durations + tie-break choices on the deterministic virtual-time loop (SimRuntime only adds the tie-breaks)",
     ]
@@ -321,6 +332,15 @@ class C22(Prop):
             runs = []
             for _ in range(draw(st.integers(1, 3))):
                 runs.append({"at": draw(st.sampled_from([0, 0, 0, 1, 2, 4, "after"])), "n": draw(st.integers(1, 4))})
+            if draw(st.integers(0, 2)) == 0:
+                # factory faults: the k-th call of a factory raises (a transient failure); that step invocation and its run fail,
+                # later invocations / runs of the same instance go on
+                for _ in range(draw(st.integers(1, 2))):
+                    f = res[draw(st.integers(0, nf - 1))]
+                    f["fail"] = sorted(set((f.get("fail") or []) + [draw(st.sampled_from([1, 1, 2, 2, 3, 4]))]))
+                if len(runs) == 1 or draw(st.integers(0, 1)):
+                    # something must come after the failure: one more run, started once everything before it has ended
+                    runs.append({"at": "after", "n": draw(st.integers(1, 3))})
             if draw(st.integers(0, 1)):
                 # one factory declared both ways: some step parameters / dependency edges use the opposite cache flag
                 for sp in steps:
@@ -365,8 +385,10 @@ class C22(Prop):
 
         def record_call(fi, kw):
             log.serial += 1
+            log.ncall[fi] = log.ncall.get(fi, 0) + 1
             deps = {int(p[1:]): v for p, v in kw.items()}
-            c = {"f": fi, "serial": log.serial, "tid": log.tid(), "s0": rec.nseq(), "t0": VClock.t, "s1": None, "t1": None,
+            c = {"f": fi, "serial": log.serial, "n": log.ncall[fi], "run": RUN_K.get(), "raised": False,
+                 "tid": log.tid(), "s0": rec.nseq(), "t0": VClock.t, "s1": None, "t1": None,
                  "deps": {j: (v.serial if isinstance(v, Prod) else repr(v)[:40]) for j, v in deps.items()},
                  "dep_fi": {j: (v.fi if isinstance(v, Prod) else None) for j, v in deps.items()}}
             log.calls.append(c)
@@ -377,17 +399,23 @@ class C22(Prop):
             params = [f"p{j}" for j in f["deps"]]
             if f["a"]:
 
-                async def impl(kw, i=i, d=f["d"]):
+                async def impl(kw, i=i, d=f["d"], fail=tuple(f.get("fail") or ())):
                     c, p = record_call(i, kw)
                     if d is not None:
                         await asyncio.sleep(d)
+                    if c["n"] in fail:
+                        c["raised"] = True
+                        raise ge.GenError(f"{FAULT_TAG}{c['serial']}")
                     c["s1"], c["t1"] = rec.nseq(), VClock.t
                     return p
 
             else:
 
-                def impl(kw, i=i):
+                def impl(kw, i=i, fail=tuple(f.get("fail") or ())):
                     c, p = record_call(i, kw)
+                    if c["n"] in fail:
+                        c["raised"] = True
+                        raise ge.GenError(f"{FAULT_TAG}{c['serial']}")
                     c["s1"], c["t1"] = rec.nseq(), VClock.t
                     return p
 
@@ -409,7 +437,7 @@ class C22(Prop):
 
         async def body(self, ctx, ev, kw, si):
             sp = case["steps"][si]
-            inv = {"step": si, "k": ev.get("k"), "j": ev.get("j"), "tid": log.tid(), "s_in": rec.nseq(), "t_in": VClock.t,
+            inv = {"step": si, "k": ev.get("k"), "j": ev.get("j"), "run_ctx": RUN_K.get(), "tid": log.tid(), "s_in": rec.nseq(), "t_in": VClock.t,
                    "inj": {int(p[1:]): v for p, v in kw.items()}}
             log.invs.append(inv)
             if sp["d"]:
@@ -480,7 +508,9 @@ class C22(Prop):
                         await asyncio.wait(prev, timeout=max(0.0, horizon - VClock.t))
                 elif spec["at"] > VClock.t:
                     await asyncio.sleep(spec["at"] - VClock.t)
+                RUN_K.set(k)  # inherited by the run's task tree (tasks copy the context of their creator)
                 handlers[k] = wf.run(start_event=ge.GStart(k=k, n=spec["n"]), run_id=f"run-{k}")
+                RUN_K.set(None)
             pend = [h._result_task for h in handlers if h is not None and not h._result_task.done()]
             if pend:
                 await asyncio.wait(pend, timeout=max(0.0, horizon - VClock.t))
@@ -531,15 +561,22 @@ class C22(Prop):
             return any(p["tid"] != tid and p["s_req"] < s and (p["s_exit"] is None or s < p["s_exit"]) for p in log.phases)
 
         # ---- (d) outcomes
+        if any(inv["run_ctx"] != inv["k"] for inv in log.invs):
+            raise RuntimeError("harness: run attribution by context variable does not match the event payload")
+        raised = [c for c in log.calls if c["raised"]]
         failed_any = False
         for k, o in enumerate(outcomes):
             is_cycle_err = o["kind"] == "failed" and CYCLE_MSG in o.get("msg", "")
+            own_faults = {f"{FAULT_TAG}{c['serial']}" for c in raised if c["run"] == k}
+            is_own_fault = o["kind"] == "failed" and o.get("type") == "GenError" and o.get("msg") in own_faults
             if o["kind"] != "result":
                 failed_any = True
+            if is_own_fault:
+                continue  # a factory of this run raised: the run fails with exactly that exception
             if cyclic:
                 if not (is_cycle_err and o.get("is_value_error")):
                     r.v("cycle_not_reported", outcome=o["kind"], exc_type=o.get("type"), start_step_cyclic=0 in cyc_steps,
-                        msg=(o.get("msg") or "")[:80])
+                        factory_raised_in_run=bool(own_faults), msg=(o.get("msg") or "")[:80])
             else:
                 if is_cycle_err:
                     # the request that raised first (innermost: it is the first to end with the error)
@@ -547,11 +584,18 @@ class C22(Prop):
                     r.v("false_cycle_error", concurrent_resolutions=bool(g and other_open_at(g["tid"], g["s0"])),
                         chain=o["msg"].split(": ", 1)[-1][:80], multi_run=len(runs) > 1)
                 elif o["kind"] == "failed":
-                    r.v("unexpected_failure", exc_type=o.get("type"), msg=o.get("msg", "")[:120])
+                    r.v("unexpected_failure", exc_type=o.get("type"), msg=o.get("msg", "")[:120], fault_of_another_run=o.get("msg", "").startswith(FAULT_TAG))
                 elif o["kind"] != "result":
-                    r.v("run_unfinished", outcome=o["kind"])
+                    r.v("run_unfinished", outcome=o["kind"], factory_raised_in_run=bool(own_faults))
+                elif own_faults:
+                    r.v("factory_exception_not_reported", outcome="result")
                 elif o["result"] != k:
                     r.v("wrong_result", got=repr(o["result"])[:40], want=k)
+                else:
+                    want_inv = 1 + runs[k]["n"] * (len(steps) - 1)
+                    got_inv = len([1 for inv in log.invs if inv["k"] == k])
+                    if got_inv != want_inv:
+                        r.v("invocation_count", got=got_inv, want=want_inv)
 
         # ---- (c) wiring
         for c in log.calls:
@@ -611,8 +655,11 @@ class C22(Prop):
             ia, ib = by_tid_inv.get(tid_a), by_tid_inv.get(tid_b)
             pa, pb = phase_of.get(tid_a), phase_of.get(tid_b)
             ov = bool(pa and pb and (interleaved(pa, pb) or interleaved(pb, pa)))
+            # the maker's resolution ended without its step body ever running (a factory raised, a cycle was reported, or it was cancelled)
+            after_failed = bool(ia is None and pa is not None and pa["s_exit"] is not None and pb is not None and pa["s_exit"] < pb["s_req"])
             r.v("noncached_shared_across_invocations", concurrent_resolutions=concurrent(pa) or concurrent(pb), these_two_overlap=ov,
-                same_step=bool(ia and ib and ia["step"] == ib["step"]), same_run=bool(ia and ib and ia["k"] == ib["k"]), is_async=res[i]["a"], **extra)
+                same_step=bool(ia and ib and ia["step"] == ib["step"]), same_run=bool(ia and ib and ia["k"] == ib["k"]), is_async=res[i]["a"],
+                after_failed_resolution=after_failed, **extra)
 
         def made_for_noncached_use(sn):
             """the call that made product sn ran in a worker task whose step uses that factory non-cached."""
@@ -631,7 +678,7 @@ class C22(Prop):
                 cs.sort(key=lambda c: c["s0"])
                 ov = any(cs[x + 1]["s0"] < cs[x]["s1"] for x in range(len(cs) - 1))
                 r.v("cached_factory_called_more_than_once", calls=len(cs), overlapping_calls=ov, is_async=f["a"])
-            if not cyclic and not failed_any and i in needed and len(cs) == 0:
+            if not cyclic and i in needed and len(cs) == 0:
                 r.v("factory_never_called", cached_use=i in used_c)
             cached_seen = c_occ.get(i, {})
             borrowed = sorted(sn for sn in cached_seen if sn in nc_occ.get(i, {}) or made_for_noncached_use(sn))
@@ -673,17 +720,13 @@ class C22(Prop):
                 if ph is not None and all(ph["s_req"] < c["s0"] and (ph["s_exit"] is None or c["s0"] < ph["s_exit"]) for c in cs):
                     r.v("noncached_called_twice_in_one_resolution", calls=len(cs), other_resolution_open=other_open_at(tid, cs[1]["s0"]))
                     break
-        # every call's product was received by somebody
-        if not failed_any:
-            for c in log.calls:
-                if c["serial"] not in all_serials:
-                    r.v("factory_call_product_dropped", declared_cached=c["f"] in used_c, declared_noncached=c["f"] in used_nc,
-                        other_resolution_open=other_open_at(c["tid"], c["s0"]))
-                    break
-            # every invocation that ran was one the case asked for
-            want_inv = sum(1 + x["n"] * (len(steps) - 1) for x in runs)
-            if len(log.invs) != want_inv:
-                r.v("invocation_count", got=len(log.invs), want=want_inv)
+        # every product made in a resolution that went on to run its step body was received by somebody (what a failed or
+        # cancelled resolution made is dropped, or stays behind only as a cached object)
+        for c in log.calls:
+            if c["s1"] is not None and c["tid"] in by_tid_inv and c["serial"] not in all_serials:
+                r.v("factory_call_product_dropped", declared_cached=c["f"] in used_c, declared_noncached=c["f"] in used_nc,
+                    other_resolution_open=other_open_at(c["tid"], c["s0"]))
+                break
 
         # ---- non-triviality and classes
         first_done = {}  # when the object of the cached declaration became available
@@ -724,6 +767,12 @@ class C22(Prop):
             r.classes.append("descriptor_per_use")
         if failed_any:
             r.classes.append("run_failed")
+        if raised:
+            r.classes.append("factory_raised")
+            if any(o["kind"] == "result" for o in outcomes):
+                r.classes.append("factory_raised_and_a_run_succeeded")
+            if any(not c["raised"] and c["s1"] is not None and c["tid"] not in by_tid_inv and c["f"] in used_nc for c in log.calls):
+                r.classes.append("noncached_product_left_by_failed_resolution")
         if used_nc:
             r.classes.append("has_noncached")
         if used_c & used_nc:
